@@ -44,12 +44,13 @@ def Ser.rowAt {V : Type} (s : Ser V) (t : Int) : List (Option V) :=
 /-- serial of `end_date` (meaningful for non-empty series) -/
 def Ser.stop {V : Type} (s : Ser V) : Int := s.start + s.rows.length - 1
 
-/-- `Series.trim()`: drop leading and trailing all-NaN rows; nothing left -> `reset()` (empty, UNKNOWN) -/
+/-- `Series.trim()`: drop leading and trailing all-NaN rows; nothing left -> `reset()` (empty, UNKNOWN; `reset` re-runs
+`__init__` with the number of variants only, so the description is lost too) -/
 def Ser.trim {V : Type} (s : Ser V) : Ser V :=
   let lead := (s.rows.takeWhile allNan).length
   let rows1 := s.rows.dropWhile allNan
   let rows2 := (rows1.reverse.dropWhile allNan).reverse
-  if rows2.isEmpty then Ser.empty s.nv s.desc else ⟨s.freq, s.start + lead, s.nv, rows2, s.desc⟩
+  if rows2.isEmpty then Ser.empty s.nv "" else ⟨s.freq, s.start + lead, s.nv, rows2, s.desc⟩
 
 inductive Item (S V : Type) where
   | ser (s : S)
